@@ -132,6 +132,8 @@ class InterpBase:
         self.default_factories: Dict[str, Any] = {}
         self.counter_info: Dict[str, Any] = {}  # Counter allocation -> (counted sequence, exact groups or None)
         self.number_locals: bool = False
+        self.tolerance_tests: list = []  # explicit mode: math.isclose met on two terms that are not known equal
+        self.assume_close = None  # outcome assumed for such a test (None = open)
         self.open_cmps: list = []  # explicit mode: comparisons between two terms that the abstract state could not decide
         self.explicit: bool = False  # runs on small explicit inputs: pair enumerations and chunkings of listed sequences stay listed, longer unrolling
         self.pos_tagger = None  # rule-supplied: provenance tags for position values (which dimension a position ranges over)
